@@ -78,7 +78,18 @@ func (f *verifC33File) Seek(offset int64, whence int) (int64, error) {
 	verifFail("unexpected Seek")
 	return 0, nil
 }
-func (f *verifC33File) Truncate(size int64) error { verifFail("unexpected Truncate"); return nil }
+func (f *verifC33File) Truncate(size int64) error {
+	if f.fsys != nil {
+		f.fsys.log = append(f.fsys.log, verifC33Op{"truncate", f.path, ""})
+	}
+	if int(size) < len(f.data) {
+		f.data = f.data[:size]
+	}
+	if f.synced > len(f.data) {
+		f.synced = len(f.data)
+	}
+	return nil
+}
 
 type verifC33Op struct{ op, path, to string }
 
@@ -352,7 +363,7 @@ func VerifC33_snapshotDiscipline() {
 	renames := 0
 	for _, op := range m.log {
 		switch op.op {
-		case "open", "write", "sync", "close", "remove", "removeall":
+		case "open", "write", "sync", "close", "remove", "removeall", "truncate":
 			verifAssert(op.path != final, "the snapshot path itself is never opened, written or removed")
 		case "rename":
 			renames++
